@@ -6,6 +6,8 @@ Sources read: fim/slivers/base_sliver.py       BaseSliver.prop_diff (+ the const
               fim/slivers/network_service.py   NetworkServiceSliver.diff, NetworkServiceInfo
               fim/slivers/interface_info.py    InterfaceSliver.diff, InterfaceInfo
               fim/slivers/attached_components.py  AttachedComponentsInfo
+              fim/slivers/capacities_labels.py  Labels.__eq__, Capacities.__eq__ (default for a missing field, `not other` guard)
+              fim/slivers/json_data.py         JSONData.__eq__ / _canonical (same class, canonical JSON text)
 
 The methods are not pattern-matched as text: a small symbolic evaluator runs each `diff` once for every combination of
 "the *Info object is present / absent" on both sides (so `if self.x_info and other.x_info` is a concrete test) and once
@@ -92,6 +94,7 @@ class Ev:
         self.presence = presence          # {(side, infoattr): bool}
         self.fields = fields              # {"TopologyDiff": [...], ...}
         self.depth = 0
+        self.super_diff = 0               # times `super().diff(<other>)` was evaluated
 
     # ---- helpers
     def find_method(self, name):
@@ -130,7 +133,7 @@ class Ev:
             return ("nonempty", v)
         if k == "diff":
             return ("truthy", v)
-        if k in ("nonempty", "truthy", "ne", "typeis", "nonnone", "and", "or", "not"):
+        if k in ("nonempty", "truthy", "ne", "eq", "typeis", "nonnone", "and", "or", "not"):
             return v
         if k == "const":
             return bool(v[1])
@@ -227,6 +230,8 @@ class Ev:
             return ("first", v[1], v[2])
         if v[0] == "dict" and s[0] == "attr" and s[1][0] == "elem":
             return ("partner", v, s[2])
+        if v[0] == "dict" and s[0] == "keyof" and s[1][0] == "elem":
+            return ("partner", v, INFO_FACTS[v[2]]["key"])
         bad("unsupported subscript %r[%r]" % (v, s), n)
 
     def e_BoolOp(self, n, env):
@@ -297,6 +302,8 @@ class Ev:
             bad("**kwargs in a call", n)
         # super().diff(other) - the isinstance assertion of the abstract method
         if isinstance(f, ast.Attribute) and isinstance(f.value, ast.Call) and isinstance(f.value.func, ast.Name) and f.value.func.id == "super":
+            if f.attr == "diff" and args == [("sliver", "other")] and not kws and self.depth == 1:
+                self.super_diff += 1
             return ("const", None)
         if isinstance(f, ast.Name):
             g = f.id
@@ -375,10 +382,15 @@ class Ev:
                 return ("gettype", recv)
             if meth == "values" and not args and recv[0] in ("dsub", "common", "dict", "edict"):
                 return ("vals", recv)
+            if meth == "items" and not args and recv[0] == "common":
+                return ("items", recv)
             if recv[0] == "info" and len(args) == 1 and not kws and meth in INFO_FACTS[INFO_ATTRS[recv[2]]]["getters"]:
                 a = args[0]
                 if a[0] == "attr" and a[1][0] == "elem":
                     return ("partner", ("dict", recv[1], INFO_ATTRS[recv[2]]), a[2])
+                if a[0] == "keyof" and a[1][0] == "elem":
+                    # the key the common dictionary holds the element under: the attribute add_* stores it by
+                    return ("partner", ("dict", recv[1], INFO_ATTRS[recv[2]]), INFO_FACTS[INFO_ATTRS[recv[2]]]["key"])
                 bad("%s(%r): not the key of the loop element" % (meth, a), n)
             if recv[0] == "sliver" and not args and not kws and meth.startswith("get_"):
                 acc = self.find_method(meth)
@@ -536,6 +548,14 @@ class Ev:
                 env[s.target.id] = ("elem", it[1])
                 self.block(s.body, env, (), it[1])
                 return
+            if it[0] == "items" and isinstance(s.target, ast.Tuple) and len(s.target.elts) == 2 \
+                    and all(isinstance(e, ast.Name) for e in s.target.elts):
+                if loop is not None or path:
+                    bad("nested loop", s)
+                env[s.target.elts[1].id] = ("elem", it[1])
+                env[s.target.elts[0].id] = ("keyof", ("elem", it[1]))
+                self.block(s.body, env, (), it[1])
+                return
             bad("loop over %r" % (it,), s)
         bad("unsupported statement %s" % type(s).__name__, s)
 
@@ -629,6 +649,183 @@ def tdiff_facts():
 
 
 # ------------------------------------------------------------------------------------------------
+# the values prop_diff compares: Labels.__eq__, Capacities.__eq__, JSONData.__eq__
+
+F_CAPLAB = "fim/slivers/capacities_labels.py"
+F_JSON = "fim/slivers/json_data.py"
+
+
+def _ret_is(st, val):
+    return isinstance(st, ast.Return) and isinstance(st.value, ast.Constant) and st.value.value is val
+
+
+def fields_eq_facts(tree, cname):
+    """Labels / Capacities:  [if not other: return False]  [assert ...]
+                             for f, v in self.__dict__.items(): if v != other.__dict__.get(f[, D]): return False
+                             return True
+    -> (default D or None, has the `not other` guard)"""
+    cls = find_class(tree, cname)
+    fn = find_func(cls, "__eq__")
+    params = [a.arg for a in fn.args.args]
+    if len(params) != 2:
+        bad("%s.__eq__ signature" % cname)
+    me, other = params
+    body = [s for s in strip_doc(fn.body) if not isinstance(s, ast.Assert)]
+    guard = False
+    if body and isinstance(body[0], ast.If) and not body[0].orelse and len(body[0].body) == 1 and _ret_is(body[0].body[0], False):
+        t = body[0].test
+        if isinstance(t, ast.UnaryOp) and isinstance(t.op, ast.Not) and isinstance(t.operand, ast.Name) and t.operand.id == other:
+            guard = True
+        elif isinstance(t, ast.Compare) and len(t.ops) == 1 and isinstance(t.ops[0], ast.Is) and isinstance(t.left, ast.Name) \
+                and t.left.id == other and isinstance(t.comparators[0], ast.Constant) and t.comparators[0].value is None:
+            guard = True
+        else:
+            bad("%s.__eq__: unrecognised opening test" % cname)
+        body = body[1:]
+    if len(body) != 2 or not isinstance(body[0], ast.For) or body[0].orelse or not _ret_is(body[1], True):
+        bad("%s.__eq__ is not `for ...: if ...: return False` followed by `return True`" % cname)
+    loop = body[0]
+    if not (isinstance(loop.target, ast.Tuple) and len(loop.target.elts) == 2 and all(isinstance(e, ast.Name) for e in loop.target.elts)):
+        bad("%s.__eq__: loop target" % cname)
+    f, v = (e.id for e in loop.target.elts)
+    if ast.unparse(loop.iter) != "%s.__dict__.items()" % me:
+        bad("%s.__eq__ does not loop over self.__dict__.items()" % cname)
+    inner = [s for s in loop.body if not (isinstance(s, ast.Expr) and isinstance(s.value, ast.Constant))]
+    if len(inner) != 1 or not isinstance(inner[0], ast.If) or inner[0].orelse or len(inner[0].body) != 1 \
+            or not _ret_is(inner[0].body[0], False):
+        bad("%s.__eq__: loop body is not `if <differs>: return False`" % cname)
+    t = inner[0].test
+    if isinstance(t, ast.UnaryOp) and isinstance(t.op, ast.Not) and isinstance(t.operand, ast.Compare) \
+            and len(t.operand.ops) == 1 and isinstance(t.operand.ops[0], ast.Eq):
+        left, right = t.operand.left, t.operand.comparators[0]
+    elif isinstance(t, ast.Compare) and len(t.ops) == 1 and isinstance(t.ops[0], ast.NotEq):
+        left, right = t.left, t.comparators[0]
+    else:
+        bad("%s.__eq__: field test is not an inequality" % cname)
+    if isinstance(right, ast.Name) and right.id == v:
+        left, right = right, left
+    if not (isinstance(left, ast.Name) and left.id == v):
+        bad("%s.__eq__ does not compare the field value" % cname)
+    default = None
+    if isinstance(right, ast.Call) and ast.unparse(right.func) == "%s.__dict__.get" % other and not right.keywords \
+            and 1 <= len(right.args) <= 2 and isinstance(right.args[0], ast.Name) and right.args[0].id == f:
+        if len(right.args) == 2:
+            d = right.args[1]
+            if isinstance(d, ast.Constant) and d.value is None:
+                default = None
+            elif isinstance(d, ast.Constant) and isinstance(d.value, int) and not isinstance(d.value, bool):
+                default = d.value
+            else:
+                bad("%s.__eq__: default of a missing field" % cname)
+    elif isinstance(right, ast.Subscript) and ast.unparse(right) == "%s.__dict__[%s]" % (other, f):
+        bad("%s.__eq__ indexes other.__dict__ (raises on a missing field): not modelled" % cname)
+    else:
+        bad("%s.__eq__ compares with %s" % (cname, ast.unparse(right)))
+    return default, guard
+
+
+def _conjuncts(e):
+    if isinstance(e, ast.BoolOp) and isinstance(e.op, ast.And):
+        out = []
+        for v in e.values:
+            out += _conjuncts(v)
+        return out
+    return [e]
+
+
+def _negate(t):
+    if isinstance(t, ast.UnaryOp) and isinstance(t.op, ast.Not):
+        return t.operand
+    if isinstance(t, ast.Compare) and len(t.ops) == 1:
+        flip = {ast.IsNot: ast.Is, ast.NotEq: ast.Eq}
+        for a, b in flip.items():
+            if isinstance(t.ops[0], a):
+                return ast.Compare(left=t.left, ops=[b()], comparators=t.comparators)
+    bad("JSONData.__eq__: cannot negate %s" % ast.unparse(t))
+
+
+def ud_eq_facts():
+    """JSONData.__eq__: [if not isinstance(other, JSONData): return NotImplemented] then a conjunction, possibly split into
+    `if not <c>: return False` steps, of `self.__class__ is other.__class__` and `self._canonical() == other._canonical()`;
+    _canonical: [if self._data is None: return None] return json.dumps(json.loads(self._data), sort_keys=True)"""
+    tree, _ = parse(F_JSON)
+    cls = find_class(tree, "JSONData")
+    for sub in tree.body:
+        if isinstance(sub, ast.ClassDef) and any(isinstance(b, ast.Name) and b.id == "JSONData" for b in sub.bases):
+            for m in sub.body:
+                if isinstance(m, ast.FunctionDef) and m.name in ("__eq__", "__ne__", "_canonical", "__bool__", "__len__"):
+                    bad("%s overrides %s" % (sub.name, m.name))
+    for m in cls.body:
+        if isinstance(m, ast.FunctionDef) and m.name in ("__ne__", "__bool__", "__len__"):
+            bad("JSONData defines %s" % m.name)
+    fn = find_func(cls, "__eq__")
+    params = [a.arg for a in fn.args.args]
+    if len(params) != 2:
+        bad("JSONData.__eq__ signature")
+    me, other = params
+    conj = []
+    done = False
+    for st in strip_doc(fn.body):
+        if done:
+            bad("JSONData.__eq__: statements after the final return")
+        if isinstance(st, ast.If) and not st.orelse and len(st.body) == 1 and isinstance(st.body[0], ast.Return):
+            rv = st.body[0].value
+            if isinstance(rv, ast.Name) and rv.id == "NotImplemented":
+                if ast.unparse(st.test) != "not isinstance(%s, JSONData)" % other:
+                    bad("JSONData.__eq__: NotImplemented under %s" % ast.unparse(st.test))
+                continue
+            if isinstance(rv, ast.Constant) and rv.value is False:
+                conj += _conjuncts(_negate(st.test))
+                continue
+        if isinstance(st, ast.Return) and st.value is not None:
+            conj += _conjuncts(st.value)
+            done = True
+            continue
+        bad("JSONData.__eq__: unrecognised statement %s" % type(st).__name__)
+    if not done:
+        bad("JSONData.__eq__ does not end in a return")
+    texts = set()
+    for c in conj:
+        t = ast.unparse(c)
+        t = t.replace(me + ".", "self.").replace(other + ".", "other.")
+        texts.add(t)
+    same_class = {"self.__class__ is other.__class__", "other.__class__ is self.__class__",
+                  "type(self) is type(other)", "type(other) is type(self)"}
+    canonical = {"self._canonical() == other._canonical()", "other._canonical() == self._canonical()"}
+    rest = texts - same_class - canonical
+    if rest:
+        bad("JSONData.__eq__ also requires / instead compares: %s" % sorted(rest))
+    cn = find_func(cls, "_canonical")
+    body = strip_doc(cn.body)
+    if body and isinstance(body[0], ast.If) and ast.unparse(body[0].test) == "self._data is None" and not body[0].orelse \
+            and len(body[0].body) == 1 and _ret_is(body[0].body[0], None):
+        body = body[1:]
+    if len(body) != 1 or not isinstance(body[0], ast.Return) \
+            or ast.unparse(body[0].value) != "json.dumps(json.loads(self._data), sort_keys=True)":
+        bad("JSONData._canonical is not json.dumps(json.loads(self._data), sort_keys=True)")
+    return bool(texts & same_class), bool(texts & canonical)
+
+
+def value_facts():
+    tree, _ = parse(F_CAPLAB)
+    presence = True
+    for cname in ("JSONField", "Labels", "Capacities"):
+        cls = find_class(tree, cname)
+        for m in cls.body:
+            if isinstance(m, ast.FunctionDef) and m.name in ("__bool__", "__len__"):
+                presence = False
+            if isinstance(m, ast.FunctionDef) and m.name == "__ne__":
+                bad("%s defines __ne__" % cname)
+    ld, lg = fields_eq_facts(tree, "Labels")
+    cd, cg = fields_eq_facts(tree, "Capacities")
+    if not (lg and cg):
+        # without the guard `other.__dict__` raises on None: prop_diff of a set against an unset property would raise
+        bad("Labels/Capacities.__eq__ without the opening `if not other: return False`")
+    same_class, canonical = ud_eq_facts()
+    return {"labelsMissing": ld, "capsMissing": cd, "notOtherIsNone": presence, "udSameClass": same_class, "udCanonicalText": canonical}
+
+
+# ------------------------------------------------------------------------------------------------
 # prop_diff
 
 
@@ -666,6 +863,19 @@ def extract_props(fields):
 # ------------------------------------------------------------------------------------------------
 # the three diff methods
 
+CLASS_GUARD = {}
+
+
+def base_diff_asserts_class():
+    """BaseSliver.diff (abstract) is `assert isinstance(self, other_sliver.__class__)`"""
+    _, cls = base_class()
+    fn = find_func(cls, "diff")
+    params = [a.arg for a in fn.args.args]
+    body = strip_doc(fn.body)
+    return len(params) == 2 and len(body) == 1 and isinstance(body[0], ast.Assert) \
+        and ast.unparse(body[0].test) == "isinstance(%s, %s.__class__)" % (params[0], params[1])
+
+
 METHODS = {
     "node": (F_NODE, "NodeSliver", ("comps", "svcs")),
     "svc": (F_SVC, "NetworkServiceSliver", ("ifs",)),
@@ -683,6 +893,7 @@ def run_method(which, presence, fields):
         bad("%s.diff signature" % cname)
     ev = Ev(cls, tree, base, presence, fields)
     v = ev.call_method(fn, ("sliver", "self"), [("sliver", "other")], {}, fn)
+    CLASS_GUARD[which] = CLASS_GUARD.get(which, True) and ev.super_diff >= 1
     return summarize(which, v)
 
 
@@ -714,7 +925,7 @@ def summarize(which, v):
             if cv[0] != "coll":
                 bad("%s: %s.%s is not one of the collections built by the method" % (which, sect, slot))
             slots[(sect, slot)] = cv[1]
-    return tuple(cond), slots
+    return tuple(sorted(cond, key=repr)), slots
 
 
 def level_from(which, coll, slots_all, fields):
@@ -825,7 +1036,7 @@ def expected(which, mc, presence):
             vals[("removed", c)] = (("all", ("dict", "self", c)),) if (pa and not pb and lv["onlySelf"]) else ()
             vals[("modified", c)] = ()
     vals[("selfMod",)] = mc["_self"]
-    cond = tuple(vals[p] for p in mc["cond"] if vals[p])
+    cond = tuple(sorted((vals[p] for p in mc["cond"] if vals[p]), key=repr))
     slots = {}
     for sect in SECTS:
         for slot in SLOTS:
@@ -885,6 +1096,12 @@ def extract_method(which, fields):
         for nm in split(ps, "the final test"):
             if nm not in mc["cond"]:
                 mc["cond"].append(nm)
+    # a pure `or` of emptiness tests: the order of its terms is not observable, emit them in a fixed one
+    rank = {("selfMod",): 0}
+    for i, sect in enumerate(SECTS):
+        for j, c in enumerate(("comps", "svcs", "ifs")):
+            rank[(sect, c)] = 1 + 3 * i + j
+    mc["cond"].sort(key=lambda nm: rank[nm])
     for sect in SECTS:
         mc[sect] = []
         for slot in fields["TopologyDiffModifiedTuple" if sect == "modified" else "TopologyDiffTuple"]:
@@ -950,21 +1167,29 @@ def generate():
         INFO_FACTS = info_facts()
         members, fields = tdiff_facts()
         props = extract_props(fields)
+        vals = value_facts()
+        CLASS_GUARD.clear()
         methods = {w: extract_method(w, fields) for w in ("node", "svc", "iface")}
     except ExtractionError:
         raise
     except RecursionError as e:
         raise ExtractionError("diffcfg: %r" % e)
     presence = all(f["presence"] for f in INFO_FACTS.values())
+    class_guard = base_diff_asserts_class() and all(CLASS_GUARD.get(w) for w in ("node", "svc", "iface"))
     body = "open FimVerif.Diff\n\ndef cfg : Cfg :=\n"
     body += "  { props := %s,\n" % lean_list(["(.%s, .%s)" % p for p in props])
     body += "    flagVal := %s,\n" % lean_list(["(.%s, %d)" % (FLAG_MEMBERS[k], members[k]) for k in FLAG_MEMBERS])
     body += "    infoPresence := %s,\n" % str(presence).lower()
+    body += "    classGuard := %s,\n" % str(class_guard).lower()
+    opt = lambda x: "none" if x is None else "some %d" % x
+    body += ("    vals := { labelsMissing := %s, capsMissing := %s, notOtherIsNone := %s, udSameClass := %s, udCanonicalText := %s },\n" % (
+        opt(vals["labelsMissing"]), opt(vals["capsMissing"]), str(vals["notOtherIsNone"]).lower(),
+        str(vals["udSameClass"]).lower(), str(vals["udCanonicalText"]).lower()))
     body += "    node :=\n      %s,\n" % l_method(methods["node"])
     body += "    svc :=\n      %s,\n" % l_method(methods["svc"])
     body += "    iface :=\n      %s }\n" % l_method(methods["iface"])
     changed = emit("DiffCfg", body, header="import FimVerif.Model.DiffCfg\n")
-    return {"changed": changed, "props": props, "flag_values": {k: members[k] for k in FLAG_MEMBERS},
+    return {"changed": changed, "props": props, "values": vals, "flag_values": {k: members[k] for k in FLAG_MEMBERS},
             "info": {c: {k: v for k, v in f.items()} for c, f in INFO_FACTS.items()},
             "descend": {w: {lv["coll"]: lv["descend"] for lv in m["levels"]} for w, m in methods.items()},
             "cond": {w: [list(p) for p in m["cond"]] for w, m in methods.items()}}
